@@ -26,9 +26,20 @@ def base_inputs(rnd, n):
     # two lots with the same price, acquired at different times, and a disposal that does not consume both: the tie must be settled by time
     tied = [h for h in res[0] if len({x["price"] for x in h if x["cls"] == "in"}) < sum(x["cls"] == "in" for x in h)
             and any(x["cls"] == "out" for x in h)]
+    # lots acquired within one second (distinct only in their sub-second part) followed by a disposal: the order within the second is by time, not by row
+    ha, da, ta, _ = gen.histories("A", 3)
+    stats.append({"slice": "A", "maxtx": 3, "states": da, "transitions": ta, "histories_with_lots_in_one_second": 0})
+    burst = []
+    for h in ha:
+        ins = [x for x in h if x["cls"] == "in"]
+        if len(h) == 3 and len(ins) == 2 and ins[0]["t"] == ins[1]["t"] and h[2]["cls"] == "out" and h[2]["t"] > ins[0]["t"]:
+            burst.append([dict(x, us=(200000 * (p + 1)) % 1000000) for p, x in enumerate(h)])
+    stats[-1]["histories_with_lots_in_one_second"] = len(burst)
     groups = []
     for i in range(n):
-        if i % 4 == 1 and twins:
+        if i % 4 == 3 and burst:
+            groups.append({"B1": rnd.choice(burst), "B2": rnd.choice(burst), "B3": rnd.choice(res[1])})
+        elif i % 4 == 1 and twins:
             a, b = rnd.sample(rnd.choice(twins), 2)
             groups.append({"B1": a, "B2": b, "B3": rnd.choice(res[2])})
         elif i % 4 == 2 and tied:
@@ -46,8 +57,10 @@ def run(tier):
     groups, genstats = base_inputs(rnd, 12 if q else 80)
     jobs, index = [], []
     for gi, assets in enumerate(groups):
-        country = ["us", "generic", "us", "generic", "jp", "ie", "generic", "es"][gi % 8]
+        country = ["us", "generic", "us", "generic", "jp", "ie", "generic", "us"][gi % 8] if gi % 16 != 15 else "es"
         method = rnd.choice(["fifo", "lifo", "hifo", "lofo"]) if country in ("us", "generic") else None
+        if gi % 4 == 3 and country in ("us", "generic"):
+            method = ["lifo", "hifo", "lofo", "fifo"][(gi // 4) % 4]
         if gi % 4 == 2 and country in ("us", "generic"):
             method = ["hifo", "lofo"][(gi // 4) % 2]       # (equal prices: the sort key's tie-breakers decide)
         base = {"kind": "cli", "country": country, "args": {"method": method, "lang": "en" if country == "jp" else None, "from": None, "to": None, "neg": False},
